@@ -86,6 +86,8 @@ def describe_place_key(f, key):
     while ty.startswith("std::rc::Rc<") or ty.startswith("std::boxed::Box<"):
         ty = ty[ty.index("<") + 1:-1]
     n = "<" + ty.split("<")[0].rsplit("::", 1)[-1].strip("[]; 0123456789") + ">"
+    if "{closure@" in ty:
+        n = "<closure-env>"          # closure type names carry line numbers
     if n == "<>":
         n = "<slice>" if "[" in f.local_ty(l) else "<?>"
     return n + "".join("." + p for p in path)
